@@ -9,7 +9,7 @@ LEVEL_TEXT = ("(iii) is the exhaustive part: for node labels and statuses whose 
               "return_full_data. (iv) sub-processes with different PYTHONHASHSEED and string names must agree byte-wise.")
 LEVEL_NOTE = "(i) and (iv) are bounded subsets of the seed spaces (2^19937 / 2^32); only (iii) is exhaustive. The simulators' explored executions under the oracle are replayed twice in the other checks (determinism self-check)."
 RULE = "states = hash assignments / seeds / hash seeds enumerated; one evaluation = all simulators under one of them; non-trivial = all (every run has events)"
-BOUNDS = {"quick": "seeds VERIF_SEED..+7; all 3! and 4! hash assignments x 2 return modes; PYTHONHASHSEED 0..7", "thorough": "adds all 5! assignments; PYTHONHASHSEED 0..31"}
+BOUNDS = {"quick": "seeds VERIF_SEED..+7; all 3! and 4! hash assignments x 2 return modes; PYTHONHASHSEED 0..7 (incl. directed simple contagion with string labels and the event-driven simulators with initial_recovereds + >=2 listed index cases); rejection chain of choose_random followed for 150 consecutive rejections with poisoned entropy sources", "thorough": "adds all 5! assignments; PYTHONHASHSEED 0..31"}
 ASSUMPTIONS = ["user call-backs return lists so that only EoN's own containers are in question"]
 
 
